@@ -430,20 +430,21 @@ Definition lstep (xs : list term) (o : op) : list term * res :=
   | OClear => ([], RNone)
   | OLen => (xs, RNat (N.of_nat (length xs)))
   | OIter => (xs, RList xs)
-  | OIndex v => (xs, match index_of v xs with Some k => RNat k | None => RExc ValueError end)
+  | OIndex v => (xs, match index_of v xs with
+                     | Some k => RNat k
+                     | None => RExc (match xs with [] => OtherError | _ => ValueError end)
+                       (* list.index raises ValueError; so does rdflib, except on an EMPTY collection,
+                          where it raises a bare Exception("Malformed RDF Collection") - deviation D1,
+                          in the class of the exception only, demanded here exactly as it is *)
+                     end)
   | OContains v => (xs, RBool (memb N.eqb v xs))
   | OInit vs => (xs ++ vs, RNone)
   | ON3 => (xs, RList xs)
   | OIaddSelf => (xs ++ xs, RNone)
   end.
 
-(* the result demanded of an operation: exactly the list's, except that for
-   index() of an absent item the property only demands *an* exception *)
-Definition res_ok (o : op) (expected got : res) : bool :=
-  match o, expected, got with
-  | OIndex _, RExc _, RExc _ => true
-  | _, _, _ => res_eqb expected got
-  end.
+(* the result demanded of an operation: exactly the one [lstep] gives, exception class included *)
+Definition res_ok (o : op) (expected got : res) : bool := res_eqb expected got.
 
 Definition is_fr (t : triple) : bool := N.eqb (pred t) FIRST || N.eqb (pred t) REST.
 
@@ -559,11 +560,33 @@ Fixpoint cyclic_f (stop_falsy : bool) (fuel : nat) (g : graph) (c : term) (seen 
 (* the chain Graph.items walks (it stops at a falsy node) is cyclic *)
 Definition cyclic_iter (g : graph) (head : term) : bool :=
   match cyclic_f true (fuel_of g) g head [head] with Some b => b | None => false end.
-(* no read hangs (index() included); on a chain that is cyclic, list(c) and len(c) raise *)
+(* the node at which following the first rest link from the head stops (no rest
+   link, or a falsy node, where "while list:" ends); None = the walk is cyclic *)
+Fixpoint end_of (fuel : nat) (g : graph) (c : term) (seen : list term) : option term :=
+  match fuel with
+  | O => None
+  | S f =>
+      if negb (truthy c) then Some c else
+      match g_value g c REST with
+      | None => Some c
+      | Some r => if memb N.eqb r seen then None else end_of f g r (r :: seen)
+      end
+  end.
+(* BROKEN chain: the walk stops at a node that is not rdf:nil (and the collection is
+   not simply empty, i.e. a head without rdf:first and rdf:rest) *)
+Definition broken (g : graph) (head : term) : bool :=
+  match end_of (fuel_of g) g head [head] with
+  | Some e => negb (N.eqb e NIL) && (negb (N.eqb e head) || g_has (Some head, Some FIRST, None) g)
+  | None => false
+  end.
+
+(* no read hangs (index() included); on a cyclic chain list(c), len(c), n3() raise;
+   on a broken chain list(c), len(c), n3() raise, and "x in c" raises unless it finds x *)
 Definition r_ok (g : graph) (o : op) (r : res) : bool :=
   negb (is_hang r)
   && match o with
-     | OIter | OLen | ON3 => if cyclic_iter g HEAD then is_exc r else true
+     | OIter | OLen | ON3 => if cyclic_iter g HEAD || broken g HEAD then is_exc r else true
+     | OContains _ => if broken g HEAD then is_exc r || res_eqb r (RBool true) else true
      | _ => true
      end.
 Fixpoint r_run (g : graph) (ops : list op) (obs : list res) : bool :=
@@ -575,3 +598,10 @@ Fixpoint r_run (g : graph) (ops : list op) (obs : list res) : bool :=
 Definition r_spec (c : rcase) (obs : list res) : bool := r_run (r_graph c) (r_ops c) obs.
 
 Definition r_wfb (c : rcase) : bool := forallb is_read (r_ops c).
+
+(* trigger 1 (F3i): iteration / len / n3 / an unsuccessful membership test on a BROKEN
+   chain end silently (truncated list, False) instead of raising *)
+Definition r_kf (c : rcase) : N :=
+  if broken (r_graph c) HEAD
+     && existsb (fun o => match o with OIter | OLen | ON3 | OContains _ => true | _ => false end) (r_ops c)
+  then 1%N else 0%N.
